@@ -98,9 +98,12 @@ def c05_4(ctx, r):
     fn = ctx.fn("try_submit_jobs.try_submit_jobs", "C05.4")
     for s in ctx.some_sites(fn, "C05.4", short="JobSubmitter.submit_jobs"):
         for n in ctx.nodes_of(fn, s.node):
-            forms = guard_forms(ctx, fn, n, ALL_KINDS, kill=False)
-            r.check(("<ClusterConfig.is_complete>", False) in forms, "try-submit-jobs submits only if the submission is not complete", key_of(fn, "submit on complete submission"), s.loc,
-                    "try-submit-jobs runs a submitter round on a complete submission: batches are submitted / the completion step (teardown, reports, next pipeline stage) runs again",
+            # kill=True: the test must be about the handle that is submitted (a test on a handle loaded *before* promotion is stale:
+            # another node may complete the submission in between, and completion - teardown, reports, next stage - would run twice)
+            forms = guard_forms(ctx, fn, n, ALL_KINDS, kill=True)
+            r.check(("<ClusterConfig.is_complete>", False) in forms, "try-submit-jobs submits only if the promoted handle says the submission is not complete", key_of(fn, "submit on complete submission"), s.loc,
+                    "try-submit-jobs runs a submitter round without having tested is_complete on the handle it was promoted with (no test, or a test on a handle loaded before promotion): "
+                    "on a complete submission batches are submitted / the completion step (teardown, reports, next pipeline stage) runs again",
                     "no batch is ever submitted afterwards", guards=sorted(("" if p else "not ") + f for f, p in forms))
     rs = ctx.fn("resubmit_jobs.resubmit_jobs", "C05.4")
     prep = [n for s in ctx.some_sites(rs, "C05.4", short="Cluster.prepare_for_resubmission") for n in ctx.nodes_of(rs, s.node)]
@@ -179,6 +182,38 @@ def c05_8(ctx, r):
                     f"the node's try-submit-jobs is additionally guarded by {extra}: the last node may not trigger completion", "whenever all running batches have ended ... one try-submit-jobs ...")
     h = ctx.fn("run_jobs._try_submit_jobs", "C05.8")
     r.check(bool(spawn_sites(ctx, h, "jade try-submit-jobs")), "the helper spawns `jade try-submit-jobs <output>`", key_of(h, "spawn"), h.loc(), "_try_submit_jobs no longer spawns jade try-submit-jobs")
+
+
+@rule(P, "C05.11", "T1", "the persisted active-batch list is rewritten whenever it changed (stale ids would block forced completion for ever)", min_obligations=1)
+def c05_11(ctx, r):
+    ids_persisted_when_changed(ctx, r, "C05.11")
+
+
+def ids_persisted_when_changed(ctx, r, rid):
+    us = ctx.fn("HpcSubmitter._update_status", rid)
+    cfg = ctx.cfg(us)
+    calls = [n for s in ctx.some_sites(us, rid, short="Cluster.update_job_status") for n in ctx.nodes_of(us, s.node)]
+    from ..lib import both_orders
+
+    same = {("<JobStatus.hpc_job_ids> == hpc_job_ids", True), ("hpc_job_ids == <JobStatus.hpc_job_ids>", True)}
+    seen = set()
+    stack = [cfg.entry]
+    while stack:
+        n = stack.pop()
+        if n.id in seen or n in calls:
+            continue
+        seen.add(n.id)
+        for d, k, c in n.succ:
+            if k not in NORMAL_KINDS:
+                continue
+            if k in ("T", "F") and c is not None:
+                if both_orders([norm(ctx, us, c, n, pol=(k == "T"))]) & same:
+                    continue  # the ids did not change on this edge
+            stack.append(d)
+    r.check(cfg.exit.id not in seen, "update_job_status is called whenever the active ids differ from the persisted ones", key_of(us, "update skipped although active ids changed"), us.loc(),
+            "_update_status can return without update_job_status although the set of active batch ids changed: when a lost batch is the only change, its id stays in job_status.json, "
+            "_is_complete never sees 'no active id' and the submission never completes",
+            "The submission still reaches completion after the documented try-submit-jobs")
 
 
 @rule(P, "C05.9", "T2", "a round determines which batches are still active before it collects results", min_obligations=2)
